@@ -37,5 +37,7 @@ Section SubscribeSpec.
     | RefNoFieldDef => RuntimeErrorC
     | RefInvalidOperation => ExecutionErrorC      (* InvalidOperationError <: ExecutionError *)
     | RefVariables => VariablesCoercionErrorC
+    | RefDirectiveArguments => CoercionErrorC     (* CoercionError of collect_fields: not among the
+                                                     documented ones, but raised before the resolver is called *)
     end.
 End SubscribeSpec.
